@@ -1,4 +1,5 @@
 import KV.Generated.Sites
+import KV.Generated.Orders
 /-! # C11 — generation is deterministic and idempotent
 
 Property statements only.  The sources of run-to-run variation a Go program has are goroutine scheduling,
@@ -58,5 +59,67 @@ theorem C11_marking_order_independent {α : Type} [DecidableEq α] (entries entr
     · have hk' : k ∉ entries' := fun c => hk (h.mem_iff.mpr c)
       simp [hk, hk']
   rw [this]
+
+/-! ## Left-over output of an earlier run
+
+`Parser.ParseFile` seeds the name pool from the files of the package in loops over `pkg.Syntax` (package-level
+declarations, imports).  `factgen` regenerates, for every such loop, whether its body registers names in the pool and
+whether its first statement skips files carrying the generator's own header. -/
+
+/-- a source file as the seeding loops see it -/
+structure SrcFile where
+  generated : Bool
+  items : List String
+deriving Repr
+
+/-- what one loop feeds into the pool, in order -/
+def loopSeed (l : SeedLoop) (files : List SrcFile) : List String :=
+  if l.registersNames then (files.filter (fun f => !(l.skipsGenerated && f.generated))).flatMap (·.items) else []
+
+def seedNames (loops : List SeedLoop) (files : List SrcFile) : List String := loops.flatMap (fun l => loopSeed l files)
+
+/-- every loop of `ParseFile` that registers names skips the generator's own output (and such loops exist) -/
+theorem C11_seed_loops_guarded :
+    parseFileSeedLoops.all (fun l => !l.registersNames || l.skipsGenerated) = true ∧
+    parseFileSeedLoops.any (·.registersNames) = true := by decide
+
+theorem loopSeed_ignores_generated (l : SeedLoop) (hl : (!l.registersNames || l.skipsGenerated) = true)
+    (files extra : List SrcFile) (hg : extra.all (·.generated) = true) :
+    loopSeed l (files ++ extra) = loopSeed l files := by
+  unfold loopSeed
+  by_cases hr : l.registersNames = true
+  · simp only [hr, if_true]
+    have hs : l.skipsGenerated = true := by simpa [hr] using hl
+    rw [List.filter_append]
+    have : extra.filter (fun f => !(l.skipsGenerated && f.generated)) = [] := by
+      rw [List.filter_eq_nil_iff]
+      intro f hf
+      have := List.all_eq_true.mp hg f hf
+      simp [hs, this]
+    rw [this, List.append_nil]
+  · simp [hr]
+
+/-- **Idempotence of the seeding.**  Whatever files carrying the generator's header are present next to the user's
+    files — the previous output, a truncated or stale one, any number of them — the sequence of names fed into the pool
+    is the one a clean directory gives; hence every name chosen afterwards is the same. -/
+theorem C11_leftover_ignored (files extra : List SrcFile) (hg : extra.all (·.generated) = true) :
+    seedNames parseFileSeedLoops (files ++ extra) = seedNames parseFileSeedLoops files := by
+  unfold seedNames
+  have hall := C11_seed_loops_guarded.1
+  have : ∀ l ∈ parseFileSeedLoops, loopSeed l (files ++ extra) = loopSeed l files := by
+    intro l hl
+    exact loopSeed_ignores_generated l (List.all_eq_true.mp hall l hl) files extra hg
+  revert this
+  generalize parseFileSeedLoops = ls
+  intro this
+  induction ls with
+  | nil => rfl
+  | cons l ls ih =>
+    simp only [List.flatMap_cons]
+    rw [this l (List.mem_cons_self), ih (fun l' hl' => this l' (List.mem_cons_of_mem _ hl'))]
+
+/-- non-vacuity: an unguarded registering loop *would* see the left-over file -/
+example : seedNames [⟨true, false⟩] ([⟨false, ["App"]⟩] ++ [⟨true, ["app0"]⟩]) ≠ seedNames [⟨true, false⟩] [⟨false, ["App"]⟩] := by
+  decide
 
 end C11
